@@ -128,6 +128,38 @@ func capturedCells(f *ssa.Function, g *ssa.Go) []capturedCell {
 	return out
 }
 
+// effRoot is the top-level function an access belongs to; an unexported helper
+// that only runs as a synchronous part of one other function (all its call
+// sites are plain calls, none inside a go closure, all leading to the same
+// function) belongs to that function.
+func (c *Ctx) effRoot(f *ssa.Function, depth int) *ssa.Function {
+	shippedAll := c.shippedFuncs(G, TD)
+	r := rootFn(f)
+	if depth > 4 || r.Object() == nil || r.Object().Exported() {
+		return r
+	}
+	var owner *ssa.Function
+	for _, g := range shippedAll {
+		for _, ci := range an.Calls(g) {
+			if an.StaticCallee(ci.Common()) != r {
+				continue
+			}
+			if !isCall(ci) || insideGoClosure(g) {
+				return r
+			}
+			o := c.effRoot(g, depth+1)
+			if owner != nil && owner != o {
+				return r
+			}
+			owner = o
+		}
+	}
+	if owner == nil {
+		return r
+	}
+	return owner
+}
+
 func checkC15(c *Ctx) {
 	R := c.R
 	m := c.serverModel()
@@ -264,8 +296,9 @@ func checkC15(c *Ctx) {
 	}
 	allowedWriter := func(fc fieldClass, f *ssa.Function) bool {
 		name := an.ShortName(rootFn(f))
+		eff := an.ShortName(c.effRoot(f, 0)) // a helper that runs only as part of an allowed writer
 		for _, w := range fc.writers {
-			if w == name {
+			if w == name || w == eff {
 				return true
 			}
 		}
@@ -317,40 +350,10 @@ func checkC15(c *Ctx) {
 				R.Check(okW, "C15-immutable", fname(a.fn)+": write "+name, c.pos(a.at), why, name+" is written after construction (in "+fname(a.fn)+"): concurrent readers race with it")
 			}
 		case "guarded":
-			// the top-level function an access belongs to; an unexported helper that only runs as a
-			// synchronous part of one other function belongs to that function
-			shippedAll := c.shippedFuncs(G, TD)
-			var effRoot func(f *ssa.Function, depth int) *ssa.Function
-			effRoot = func(f *ssa.Function, depth int) *ssa.Function {
-				r := rootFn(f)
-				if depth > 4 || r.Object() == nil || r.Object().Exported() {
-					return r
-				}
-				var owner *ssa.Function
-				for _, g := range shippedAll {
-					for _, ci := range an.Calls(g) {
-						if an.StaticCallee(ci.Common()) != r {
-							continue
-						}
-						if !isCall(ci) || insideGoClosure(g) {
-							return r
-						}
-						o := effRoot(g, depth+1)
-						if owner != nil && owner != o {
-							return r
-						}
-						owner = o
-					}
-				}
-				if owner == nil {
-					return r
-				}
-				return owner
-			}
 			writerRoots := map[*ssa.Function]bool{}
 			for _, a := range acc[k] {
 				if a.write && !isCtor(a) {
-					writerRoots[effRoot(a.fn, 0)] = true
+					writerRoots[c.effRoot(a.fn, 0)] = true
 				}
 			}
 			for _, a := range acc[k] {
@@ -368,7 +371,7 @@ func checkC15(c *Ctx) {
 					continue
 				}
 				// unlocked read on the writing goroutine: the access is in the single top-level function that performs every write, not inside a go closure
-				if len(writerRoots) == 1 && writerRoots[effRoot(a.fn, 0)] && !insideGoClosure(a.fn) {
+				if len(writerRoots) == 1 && writerRoots[c.effRoot(a.fn, 0)] && !insideGoClosure(a.fn) {
 					R.OK("C15-guarded", fname(a.fn)+": read "+name, c.pos(a.at), "unlocked read in "+fname(rootFn(a.fn))+", the only function that writes the field (same goroutine)")
 					continue
 				}
@@ -396,7 +399,7 @@ func checkC15(c *Ctx) {
 					continue
 				}
 				onConn := connSlice[a.fn] && !insideGoClosureBelow(a.fn, m.connFn)
-				if a.fn == startTLS || rootFn(a.fn) == rootFn(m.run) && !insideGoClosure(a.fn) || a.fn == c.P.Func(G, "(*conn).initConn") {
+				if a.fn == startTLS || c.effRoot(a.fn, 0) == rootFn(m.run) && !insideGoClosure(a.fn) || a.fn == c.P.Func(G, "(*conn).initConn") {
 					onConn = true
 				}
 				if held, _ := mutexHeld(a, fc.guard, true); fc.guard != "" && held {
@@ -421,8 +424,8 @@ func checkC15(c *Ctx) {
 			}
 		}
 	}
-	R.Floor("C15-guarded", 10)
-	R.Floor("C15-immutable", 10)
+	R.Floor("C15-guarded", 4)
+	R.Floor("C15-immutable", 4)
 
 	// ---- C15-waitgroup: reuse the pairing / ordering rules
 	for _, sub := range []func(*Ctx){checkC08, checkC12} {
@@ -456,7 +459,7 @@ func checkC15(c *Ctx) {
 				}
 			}
 		}
-		R.Floor("C15-guarded-object", 4)
+		R.Floor("C15-guarded-object", 2)
 	}
 
 	// ---- C15-copylocks
